@@ -193,7 +193,7 @@ pub fn run(rep: &mut Rep) {
 
     for (name, s) in &table {
         let k = schema::n_optional(s);
-        let n = rep.n(1200, 120_000);
+        let n = rep.n(1200, 1_200_000);
         for i in 0..n * rep.nshards {
             case += 1;
             if !rep.mine(case) {
@@ -209,7 +209,7 @@ pub fn run(rep: &mut Rep) {
         }
     }
     // ---- (B) values constructed through the public API (and their model bytes)
-    let n = rep.n(1500, 150_000);
+    let n = rep.n(1500, 1_500_000);
     for which in 0..9u64 {
         for i in 0..n * rep.nshards {
             case += 1;
